@@ -1081,6 +1081,11 @@ func init() {
 		x.preemptBound = int(x.concreteInt(args[0], "PreemptionBound"))
 		return nil
 	})
+	rt("CanonicalSchedule", func(x *Exec, fr *frame, args []Value) Value {
+		x.canonSched = true
+		x.preemptBound = -1
+		return nil
+	})
 	rt("WaitUntil", func(x *Exec, fr *frame, args []Value) Value {
 		pred := args[0]
 		x.schedPoint()
